@@ -381,5 +381,5 @@ def run_shard(sh):
             clear_typelib_caches(also_typing=True)
             alias_case(sh, case_rng(sh, i, "alias"), D)
 
-    sh.run_cases(len(mine), both)
+    sh.run_cases(len(mine), both, timeout_s=(900 if sh.tier == "thorough" else None))
     steps.stop()
